@@ -20,11 +20,11 @@ PID = "C17"
 G = {}
 
 
-def call_index(unit, element, w, c, rules):
+def call_index(unit, element, w, c, rules, same_id=None):
     from metapype.eml import rule
     from metapype.model.node import Node
     from metapype.eml.exceptions import ChildNotAllowedError
-    p = c01.realise(unit, element, w, rules)
+    p = c01.realise(unit, element, w, rules, same_id=same_id)
     r = rule.get_rule(element) if element else rule.Rule(unit)
     try:
         got = r.child_insert_index(p, Node(c01.FOREIGN_NAME if c == c01.FOREIGN else c))
@@ -45,10 +45,15 @@ def w_insert(idx):
         unit, w = e["unit"], e["w"]
         el = G["elem"].get(unit)
         accs = e["acc"] if isinstance(e["acc"], dict) else {}     # a rule without children: empty function
-        for c, acc in list(accs.items()) + [(c01.FOREIGN, [])]:
-            kind, got = call_index(unit, el, w, c, rules)
+        cases = [(c, acc, None) for c, acc in list(accs.items()) + [(c01.FOREIGN, [])]]
+        if len(w) >= 2:          # the same sequence with siblings that were all constructed with one explicit id
+            cases += [(c, acc, "dup-id") for c, acc in accs.items()]
+        for c, acc, same_id in cases:
+            kind, got = call_index(unit, el, w, c, rules, same_id)
             n += 1
-            replay = {"kind": "insert", "unit": unit, "element": el, "children": w, "candidate": c, "acceptable": acc}
+            replay = {"kind": "insert", "unit": unit, "element": el, "children": w, "candidate": c, "acceptable": acc, "children_constructed_with_id": same_id}
+            unit_ = unit
+            unit = unit + (":siblings-share-an-id" if same_id else "")
             if kind == "raised":
                 out.append((f"raised:{type(got).__name__}:{unit}", f"{unit} children {w} candidate {c}: {got!r}", replay))
             elif c == c01.FOREIGN:
@@ -62,6 +67,7 @@ def w_insert(idx):
                 else:
                     cl = "not-acceptable"
                 out.append((f"{cl}:{unit}", f"{unit} children {w} candidate {c}: suggested {got}, acceptable {acc}", replay))
+            unit = unit_
     return n, out
 
 
